@@ -11,7 +11,7 @@ diff -u "/repo/$FILE" "$SCR/$FILE" | head -20 || true
 set +e
 VERIF_REPO="$SCR" /verif/check "$PID" --tier "$TIER" > "$SCR/out.txt" 2>&1
 RC=$?
-grep -E "VIOLATION|KNOWN-FINDING|MACHINERY|OUTSIDE|violations=" "$SCR/out.txt" | head -8
+grep -E "VIOLATION|KNOWN-FINDING|MACHINERY|OUTSIDE|MODEL-DRIFT|violations=" "$SCR/out.txt" | head -8
 echo "exit code $RC"
 rm -rf "$SCR"
 exit 0
